@@ -179,9 +179,9 @@ PROP_ATTRS = ("_name", "_id", "_dtype", "_unit", "_uncertainty", "_reference", "
 DOC_ATTRS = ("_id", "_author", "_version", "_date", "_repository")
 
 
-def snapshot(objs):
-    """Identity-based image of the object graph reachable from objs."""
-    allobjs = closure(objs)
+def snapshot(objs, expand=True):
+    """Identity-based image of the object graph reachable from objs (expand=False: of exactly these objects)."""
+    allobjs = closure(objs) if expand else list(objs)
     snap = []
     for obj in allobjs:
         entry = {"obj": obj}
